@@ -560,7 +560,15 @@ class ValidateTool(BaseTool):
             validator = Validator(schema=schema_def)
             validation_errors = validator.validate(doc, strict=strict_mode, section_schemas=section_schemas)
 
-            if validation_errors:
+            # Issue #190: findings of severity "warning" (W001 from UNKNOWN_FIELDS::WARN) are
+            # advisory - they are reported as warnings and never make the document INVALID
+            advisory_findings = [err for err in validation_errors if getattr(err, "severity", "error") == "warning"]
+            blocking_errors = [err for err in validation_errors if getattr(err, "severity", "error") != "warning"]
+            result["warnings"].extend(
+                {"code": err.code, "message": err.message, "field": err.field_path} for err in advisory_findings
+            )
+
+            if blocking_errors:
                 # Convert errors to dicts for reporting
                 error_dicts = [
                     {
@@ -568,7 +576,7 @@ class ValidateTool(BaseTool):
                         "message": err.message,
                         "field": err.field_path,
                     }
-                    for err in validation_errors
+                    for err in blocking_errors
                 ]
 
                 # #183: Profile-based handling of validation errors
